@@ -114,7 +114,7 @@ Section Pipeline.
                 end
     end.
 
-  (* ReduceStepsMetadata: the first link in map order is the reference, every link is compared with it *)
+  (* ReduceStepsMetadata: the link with the smallest key id is the reference, every link is compared with it *)
   Fixpoint all_agree (ref : link) (links : amap env) : res unit :=
     match links with
     | [] => Ok tt
@@ -123,11 +123,18 @@ Section Pipeline.
         if artifacts_eqb (ln_materials l) (ln_materials ref) && artifacts_eqb (ln_products l) (ln_products ref)
         then all_agree ref r else Err e_differ
     end.
+  (* the reference link is the one with the smallest key id (the first one when the map is iterated,
+     replaced by every later entry with a strictly smaller key) *)
+  Fixpoint min_entry (best : str * env) (links : amap env) : str * env :=
+    match links with
+    | [] => best
+    | (k, e) :: r => if str_ltb k (fst best) then min_entry (k, e) r else min_entry best r
+    end.
   Definition reduce_step (links : amap env) : res env :=
     match links with
     | [] => Panic p_reduce_nolinks
     | [(_, e)] => Ok e
-    | (_, e) :: _ => do ref <- env_link e; do _ <- all_agree ref links; Ok e
+    | p :: r => let e := snd (min_entry p r) in do ref <- env_link e; do _ <- all_agree ref links; Ok e
     end.
   Fixpoint reduce_steps (steps : list step) (m : amap (amap env)) (acc : amap env) : res (amap env) :=
     match steps with
